@@ -6,8 +6,10 @@ package interp
 import (
 	"fmt"
 	"go/types"
+	"os"
 	"regexp"
 	"strings"
+	"time"
 	"unsafe"
 
 	"golang.org/x/tools/go/ssa"
@@ -139,6 +141,9 @@ func init() {
 		},
 		"Note": func(fr *frame, args []value) value {
 			fr.i.ps.notes = appendUnique(fr.i.ps.notes, strArg(args[0]))
+			if os.Getenv("GOSYMX_NOTES") != "" {
+				fmt.Fprintf(os.Stderr, "NOTE %s %s (terms %d)\n", time.Now().Format("15:04:05"), strArg(args[0]), len(fr.i.tt.all))
+			}
 			return nil
 		},
 		"Show": func(fr *frame, args []value) value {
@@ -202,7 +207,8 @@ func init() {
 			t, _ := fr.i.termOf(args[0])
 			return fr.i.decide(t, "zzverif.ConcreteBool")
 		},
-		"IsSymbolic": func(fr *frame, args []value) value { return true },
+		"IsSymbolic":   func(fr *frame, args []value) value { return true },
+		"IsConcrete64": func(fr *frame, args []value) value { return !isSym(args[0]) },
 		"Yield": func(fr *frame, args []value) value {
 			fr.i.requireUnguarded("yield")
 			fr.i.yield(false)
@@ -526,13 +532,18 @@ func formatish(fr *frame, args []value) string {
 // ---- atomics
 
 func atomicLoad(fr *frame, args []value) value {
-	return *args[0].(*value)
+	fr.i.preempt("before atomic load")
+	v := *args[0].(*value)
+	fr.i.preempt("after atomic load")
+	return v
 }
 
 func atomicStore(fr *frame, args []value) value {
 	fr.i.requireUnguarded("atomic store")
+	fr.i.preempt("before atomic store")
 	*args[0].(*value) = args[1]
 	fr.i.progress()
+	fr.i.preempt("after atomic store")
 	return nil
 }
 
@@ -555,6 +566,8 @@ func atomicSwap(fr *frame, args []value) value {
 
 func atomicCAS(fr *frame, args []value) value {
 	fr.i.requireUnguarded("atomic cas")
+	fr.i.preempt("before atomic cas")
+	defer fr.i.preempt("after atomic cas")
 	p := args[0].(*value)
 	cur := *p
 	if isSym(cur) || isSym(args[1]) {
@@ -642,6 +655,7 @@ func callMethod(i *interpreter, fr *frame, recv iface, name string) value {
 func poolGet(fr *frame, args []value) value {
 	i := fr.i
 	i.requireUnguarded("Pool.Get")
+	i.preempt("before Pool.Get")
 	p := args[0].(*value)
 	items := i.pools[p]
 	if len(items) > 0 {
@@ -674,6 +688,8 @@ func poolGet(fr *frame, args []value) value {
 func poolPut(fr *frame, args []value) value {
 	i := fr.i
 	i.requireUnguarded("Pool.Put")
+	i.preempt("before Pool.Put")
+	defer i.preempt("after Pool.Put")
 	p := args[0].(*value)
 	if i.pools == nil {
 		i.pools = map[*value][]value{}
